@@ -21,6 +21,7 @@ CONSTANTS NodeSeq,        \* sequence of node names, e.g. <<"n1","n2","n3">>
           Strat,          \* spec.strategy (record, same fields as the projection)
           InitFits,       \* sequence (aligned with NodeSeq) of the sets of templates each node fits initially
           EnvBudget,      \* number of environment disturbances (unready, fail, node churn, restarts, duplicates)
+          EnvKinds,       \* which kinds of disturbance the configuration allows: subset of {"unready","fail","restart","dup","node"}
           EditBudget,     \* number of template edits by the user
           AnnBudget,      \* number of annotation toggles by the user
           MaxPerNode,     \* bound on pods per node (creation is disabled beyond it)
@@ -411,8 +412,11 @@ CmdUnpause ==
 
 -----------------------------------------------------------------------------
 Kubelet == \E n \in NodeIds : \E k \in 1..MaxPerNode : KReady(n, k) \/ KFinish(n, k)
-Disturb == \E n \in NodeIds : \/ \E k \in 1..MaxPerNode : KUnready(n, k) \/ KFail(n, k) \/ KRestart(n, k)
-                              \/ DupPod(n) \/ NodeRemove(n) \/ NodeAdd(n)
+Disturb == \E n \in NodeIds : \/ \E k \in 1..MaxPerNode : \/ ("unready" \in EnvKinds /\ KUnready(n, k))
+                                                          \/ ("fail" \in EnvKinds /\ KFail(n, k))
+                                                          \/ ("restart" \in EnvKinds /\ KRestart(n, k))
+                              \/ ("dup" \in EnvKinds /\ DupPod(n))
+                              \/ ("node" \in EnvKinds /\ (NodeRemove(n) \/ NodeAdd(n)))
 Narrow  == \E n \in NodeIds : \E F \in SUBSET Tmpls : NodeSetFits(n, F)
 User    == (\E t \in Tmpls : SetTemplate(t)) \/ Toggle("ruPaused") \/ Toggle("frozen")
 CanaryUser == Validate \/ CmdPause \/ CmdUnpause
@@ -454,4 +458,29 @@ OnePerNode == \A n \in NodeIds : Cardinality({ k \in DOMAIN pd[n] : ~pd[n][k].te
 
 TypeOK == /\ \A n \in NodeIds : Len(pd[n]) <= MaxPerNode
           /\ bud.env >= 0 /\ bud.edit >= 0 /\ bud.ann >= 0
+
+-----------------------------------------------------------------------------
+(* liveness (design level).  Weak fairness of the reconcilers, of the kubelet's progress actions and of the clock;   *)
+(* bounding is done by budgets inside the actions, not by a state constraint, so no constraint can hide a           *)
+(* non-progress cycle.                                                                                              *)
+Fair == /\ WF_vars(EDSReconcile)
+        /\ \A i \in DOMAIN TmplSeq : WF_vars(ERSReconcile(i))
+        /\ \A n \in NodeIds : \A k \in 1..MaxPerNode : WF_vars(KReady(n, k)) /\ WF_vars(KFinish(n, k))
+        /\ WF_vars(Tick)
+LiveSpec       == Init /\ [][Next]_vars /\ Fair
+LiveSpecCanary == Init /\ [][NextCanary]_vars /\ Fair
+
+\* the environment and the user are done, nothing is paused
+Quiet == bud.env = 0 /\ bud.edit = 0 /\ bud.ann = 0 /\ ~ed.ruPaused /\ ~ed.frozen /\ ~ed.cPaused
+ConvergedM == ed.defaulted /\ ed.active > 0 /\ \A d \in EDSs(S) : Converged(S, d)
+
+\* C02: from every reachable state in which the disturbances are over, fair reconciliation converges - to the promoted
+\* template, to the active one after a failure, or (canary paused by its own condition / not validated in manual mode)
+\* to the canary fixpoint: canary nodes on the new template, every other node on the active one
+L_C02 == Quiet ~> ConvergedM
+
+\* C07: a failed canary is eventually rolled back: spec.template restored, status.canary cleared, active unchanged
+CanaryFailedNow == \E i \in DOMAIN TmplSeq : rv[i].exists /\ rv[i].conds["CanaryFailed"].true /\ ed.tmpl = rv[i].tmpl /\ ed.active # i /\ ed.active > 0
+RolledBack == ~ed.hasCanary /\ ed.active > 0 /\ rv[ed.active].exists /\ ed.tmpl = rv[ed.active].tmpl
+L_C07 == (CanaryFailedNow /\ bud.edit = 0) ~> RolledBack
 =============================================================================
